@@ -498,7 +498,7 @@ class Keyvalues:
                         # Special function - if the last prop was a
                         # keyvalue with this name, replace it instead.
                         if (
-                            can_flag_replace and
+                            can_flag_replace and cur_block_contents and
                             cur_block_contents[-1]._real_name == token_value and
                             cur_block_contents[-1].has_children()
                         ):
@@ -533,7 +533,7 @@ class Keyvalues:
                             # Special function - if the last prop was a
                             # keyvalue with this name, replace it instead.
                             if (
-                                can_flag_replace and
+                                can_flag_replace and cur_block_contents and
                                 cur_block_contents[-1]._real_name == token_value and
                                 isinstance(cur_block_contents[-1].value, str)
                             ):
@@ -595,6 +595,8 @@ class Keyvalues:
                 if single_block and cur_block is root:
                     # Single-block mode - we just exited out of the main block.
                     # Return our child.
+                    if not root._value:
+                        raise tokenizer.error('The single block was disabled by its [flag]!')
                     return root[0]
                 # We know this isn't a leaf KV, we made it earlier.
                 assert not isinstance(cur_block._value, str)
